@@ -294,18 +294,36 @@ func postHCL(b *hclwrite.Body, p Post) {
 
 // HCL renders the document; with locals=true request headers are taken from a
 // locals block through merge() and request lists are built with concat().
-func (d Doc) HCL(locals bool) string {
+func (d Doc) HCL(locals bool) string { return d.hcl(locals, false) }
+
+// redefine: the first locals block carries stale values which the second block defines again: the
+// latest definition of a local is the one in force.
+func (d Doc) hcl(locals, redefine bool) string {
 	f := hclwrite.NewEmptyFile()
 	b := f.Body()
 	if locals {
 		lb := b.AppendNewBlock("locals", nil).Body()
 		for i, r := range d.Requests {
-			lb.SetAttributeValue(fmt.Sprintf("h%d", i), ctyMap(r.Headers))
+			if redefine {
+				lb.SetAttributeValue(fmt.Sprintf("h%d", i), ctyMap(map[string]string{"Stale": "1"}))
+			} else {
+				lb.SetAttributeValue(fmt.Sprintf("h%d", i), ctyMap(r.Headers))
+			}
 		}
 		lb.SetAttributeValue("empty", cty.EmptyObjectVal)
+		if redefine {
+			for i := range d.Scenarios {
+				lb.SetAttributeValue(fmt.Sprintf("r%d", i), ctyList([]string{"stale"}))
+			}
+		}
 		lb2 := b.AppendNewBlock("locals", nil).Body()
 		for i, s := range d.Scenarios {
 			lb2.SetAttributeValue(fmt.Sprintf("r%d", i), ctyList(s.Requests))
+		}
+		if redefine {
+			for i, r := range d.Requests {
+				lb2.SetAttributeValue(fmt.Sprintf("h%d", i), ctyMap(r.Headers))
+			}
 		}
 	}
 	for _, s := range d.Sources {
@@ -538,6 +556,8 @@ func firstDiff(a, b string) string {
 	return fmt.Sprintf("\n   yaml: ...%s\n   hcl:  ...%s", a[s:e1], b[s:e2])
 }
 
+var nameTick int
+
 func compare(d Doc) (key string, err error) {
 	grpc := len(d.Calls) > 0
 	y := read("/d.yaml", d.YAML(), grpc)
@@ -545,13 +565,31 @@ func compare(d Doc) (key string, err error) {
 		// the YAML form itself is not accepted: not a description "expressible in both syntaxes"
 		return "HARNESS", fmt.Errorf("HARNESS: the YAML rendering is rejected: %v %v\n%s", y.cfgErr, y.ammoErr, d.YAML())
 	}
-	for _, locals := range []bool{false, true} {
-		text := d.HCL(locals)
-		h := read("/d.hcl", text, grpc)
-		variant := "plain"
-		if locals {
-			variant = "locals"
+	if nameTick%7 == 3 {
+		for _, name := range []string{"/D.YAML", "/d.Yaml", "/d.yml", "/D.YML"} {
+			y2 := read(name, d.YAML(), grpc)
+			if y2.cfgErr != nil || y2.ammoErr != nil {
+				return "YAML-REJECTED|" + name, fmt.Errorf("YAML-REJECTED: the YAML form in a file named %s is rejected (%v %v); named d.yaml it is accepted", name, y2.cfgErr, y2.ammoErr)
+			}
+			if y2.cfg != y.cfg || y2.ammo != y.ammo {
+				return "CONFIG-DIFF|" + name, fmt.Errorf("CONFIG-DIFF: the YAML form read from %s differs from the one read from d.yaml", name)
+			}
 		}
+	}
+	for vi, variant := range []string{"plain", "locals", "locals-redefined", "PLAIN.HCL"} {
+		text := d.hcl(vi == 1 || vi == 2, vi == 2)
+		name := "/d.hcl"
+		if vi == 3 {
+			// the syntax is chosen by the file extension in any letter case
+			if nameTick++; nameTick%7 != 0 {
+				continue
+			}
+			name = "/D.Hcl"
+			if nameTick%2 == 0 {
+				name = "/D.HCL"
+			}
+		}
+		h := read(name, text, grpc)
 		switch {
 		case h.cfgErr != nil:
 			return "HCL-REJECTED|" + variant, fmt.Errorf("HCL-REJECTED: the HCL form (%s) of a description that YAML accepts is rejected: %v\n%s", variant, h.cfgErr, text)
